@@ -42,7 +42,7 @@ THROW_RULE = (r"throw new std::runtime_error\((\"[^\"]*\")\);", r"VP_THROW(\1);"
 def _ext_gcd_body(log):
     text = X.src("include/parmcb/fp.hpp")
     body = X.body_after(text, r"T fp<T>::ext_gcd\(T &a, T &b, T &x, T &y\)\s*", "fp::ext_gcd")
-    body = X.rewrite(body, [(r"std::size_t", "size_t", 1, "type-binding", "std::size_t -> size_t")], log)
+    body = X.rewrite(body, [(r"std::size_t", "size_t", (1, 4), "type-binding", "std::size_t -> size_t")], log)
     return body
 
 
